@@ -78,8 +78,10 @@ class Check(PropertyCheck):
                 lo, hi = (0, 1) if idt == 'bool' else ((0, 9) if idt.startswith('u') else (-9, 9))
                 img = [[str(rng.randint(lo, hi)) for _ in range(nx)] for _ in range(ny)]
             else:
-                img = [[rng.choice([str(rng.randint(-9, 9)), frac(Fraction(rng.randint(-40, 40), 8)), 'nan', 'inf'])
-                        if rng.random() < 0.1 else frac(Fraction(rng.randint(-40, 40), 4))
+                # some images are full of non-finite pixels (NaN / inf under non-zero weights are data, not "outside")
+                p_special = 0.1 if rng.random() < 0.65 else 0.45
+                img = [[rng.choice([str(rng.randint(-9, 9)), frac(Fraction(rng.randint(-40, 40), 8)), 'nan', 'nan', 'inf', '-inf'])
+                        if rng.random() < p_special else frac(Fraction(rng.randint(-40, 40), 4))
                         for _ in range(nx)] for _ in range(ny)]
             c = {'kind': op, 'bbox': box, 'data': data, 'shape': [ny, nx], 'img': img, 'dtype': dt,
                  'fill': rng.choice(FILLS), 'copy': rng.random() < 0.5}
@@ -109,6 +111,10 @@ class Check(PropertyCheck):
                 h = rng.choice([0, 1, 1, 2, 3, ny, ny + 2, rng.randint(0, 6)])
                 if rng.random() < 0.85:
                     w = max(w, 1); h = max(h, 1)
+                if rng.random() < 0.08 and nx > 0 and ny > 0:
+                    # the box covers the whole image (exactly, or with a margin on some sides)
+                    x0 = -rng.choice([0, 0, 1, 2]); y0 = -rng.choice([0, 0, 1, 3])
+                    w = nx - x0 + rng.choice([0, 0, 1, 2]); h = ny - y0 + rng.choice([0, 0, 2])
                 cases.append(mk([x0, x0 + w, y0, y0 + h], (ny, nx), rng.choice(ops)))
         # far away / huge offsets
         for _ in range(100 if tier == 'quick' else 5000):
@@ -167,6 +173,8 @@ class Check(PropertyCheck):
             if op == 'to_image':
                 r = m.to_image(tuple(case['shape']), dtype=float if case['out_dtype'] == 'float' else int)
                 out['ok'] = None if r is None else enc2(r)
+                if r is not None:
+                    out['aliases_mask'] = bool(np.shares_memory(r, m.data) or np.shares_memory(r, data))
             elif op == 'cutout':
                 r = m.cutout(img, fill_value=val(case['fill']), copy=case['copy'])
                 if r is None:
@@ -183,6 +191,7 @@ class Check(PropertyCheck):
                 else:
                     out['ok'] = enc2(getattr(r, 'value', r))
                     out['unit_kept'] = (isinstance(r, u.Quantity) and r.unit == u.Jy) == (case['dtype'] == 'quantity')
+                    out['aliases_mask'] = bool(np.shares_memory(r, m.data) or np.shares_memory(r, img))
             elif op == 'get_values':
                 um = None
                 if 'mask' in case:
@@ -265,6 +274,10 @@ class Check(PropertyCheck):
             bad('input_mutated', real['mutated'])
         if real.get('unit_kept') is False:
             bad('unit_lost', '')
+        if real.get('aliases_mask'):
+            # a result that shares memory with the mask weights (or, for multiply, with the image): editing the result
+            # would change the mask / the image
+            bad('result_aliases_input', case['kind'])
         b = case['bbox']
         ny, nx = case['shape']
         h, w = b[3] - b[2], b[1] - b[0]
